@@ -296,6 +296,10 @@ mod imp {
                         Ok(e) => e,
                         Err(e) => return Verdict::fail(format!("reader error {:?} | {} bytes {:?}", e, enc.name(), B::show(&bytes))),
                     };
+                    // the event is the same event - decoder included - after every ownership / copy conversion
+                    if let Some(d) = crate::rec::conversion_defect(&ev) {
+                        return Verdict::fail(format!("{} | {} bytes {:?}", d, enc.name(), B::show(&bytes)));
+                    }
                     let payload: Vec<u8> = ev.to_vec();
                     let decoded = dec.decode(&payload).map(|s| s.into_owned()).map_err(|e| e.to_string());
                     let mut into = String::from("#");
@@ -340,7 +344,17 @@ mod imp {
         match c.piece {
             None => {
                 let mut r = Reader::from_reader(&bytes[..]);
-                pump!(r, r.read_event());
+                // before every third call the reader is replaced by a clone of itself: the copy knows the
+                // encoding the original has found out
+                let mut calls = 0usize;
+                pump!(r, {
+                    calls += 1;
+                    if calls % 3 == 2 {
+                        let copy = r.clone();
+                        r = copy;
+                    }
+                    r.read_event()
+                });
             }
             Some(p) => {
                 // the encoding sniff looks at the first piece only (the exception written into C02): with
